@@ -40,6 +40,7 @@ func peekReaderWF(r *peekReader) bool {
 
 //@ sweep C01 read.go t1decode.go peekreader.go
 //@ sweep C10 write.go t1encode.go hex.go eexec.go
+//@ maporder C17 write.go read.go font.go
 
 //@ func peek
 //@ requires r != nil && 0 <= n && n <= 65536
@@ -51,6 +52,9 @@ func peekReaderWF(r *peekReader) bool {
 //@ func Read
 //@ requires r != nil
 //@ ensures [C10.read.writable] result1 == nil ==> result0 != nil && fontWF(result0)
+//@ loop 1 invariant [C17.read.onefont] intp != nil && len(intp.FontDirectory) == 1
+//@ loop 2 invariant [C17.read.onefont] intp != nil && len(intp.FontDirectory) == 1
+//@ loop 3 invariant [C17.read.onefont] intp != nil && len(intp.FontDirectory) == 1
 //@ loop 9 invariant ctx != nil && glyphs != nil && seacsIn(ctx, glyphs)
 //@ loop 10 invariant ctx != nil && glyphs != nil && seacsIn(ctx, glyphs)
 //@ loop 11 invariant ctx != nil && glyphs != nil && g != nil
@@ -386,6 +390,7 @@ func fontWF(f *Font) bool {
 
 //@ func (*Font).encodeCharstrings
 //@ loop 1 invariant f != nil && charStrings != nil
+//@ loop 1 back-when [C17.charstrings.ownkey] forall nm string :: nm != name ==> has(charStrings, nm) == prev(has(charStrings, nm)) && (has(charStrings, nm) ==> charStrings[nm] == prev(charStrings[nm]))
 //@ loop 2 invariant f != nil && charStrings != nil && len(iv) == 4 && ref(iv) != 0
 //@ loop 3 invariant f != nil && charStrings != nil && len(iv) == 4 && ref(iv) != 0 && len(obf) >= 4
 //@ loop 4 invariant f != nil && charStrings != nil && len(iv) == 4 && ref(iv) != 0 && 0 <= pos
@@ -399,6 +404,15 @@ func fontWF(f *Font) bool {
 //@ func (*Font).NumGlyphs
 //@ safety C19
 //@ ensures [C19.num] (has(f.Glyphs, ".notdef") ==> result == len(f.Glyphs)) && (!has(f.Glyphs, ".notdef") ==> result == len(f.Glyphs) + 1)
+
+//@ func (*Font).GlyphBBoxPDF
+//@ requires f != nil
+//@ ensures [C19.bboxpdf.proper] result.LLx <= result.URx && result.LLy <= result.URy
+//@ loop 1 invariant [C19.bboxpdf.proper] f != nil && g != nil && (first ==> bbox.LLx == 0 && bbox.URx == 0 && bbox.LLy == 0 && bbox.URy == 0) && bbox.LLx <= bbox.URx && bbox.LLy <= bbox.URy
+
+//@ func (*Font).FontBBoxPDF
+//@ requires f != nil
+//@ loop 1 invariant [C17.bbox.proper] f != nil && fontBBox.LLx <= fontBBox.URx && fontBBox.LLy <= fontBBox.URy
 
 //@ func (*Font).GlyphList
 //@ safety C19
